@@ -4,6 +4,7 @@ CONSTANTS
   MaxList = 2
   StSet = {"ok", "temp", "perm"}
   Scopes = {"global", "source", "dest"}
+  Atomic = TRUE
   Devs = {}
   Gen = FALSE
 VIEW View
